@@ -346,6 +346,9 @@ class FakeNode(object):
             return
         if beh == 'different_id':
             qid = hashlib.md5(qid + b'!').digest()
+        if beh == 'other_id' and getattr(cl, 'other_query', None):
+            # the id of another statement the client has prepared (and still holds) comes back
+            qid = cl.prepared_id(cl.other_query, ks if nc.version >= 5 else nc.keyspace)
         if beh == 'close':
             nc.conn.rst('rst')
             return
